@@ -1,5 +1,677 @@
 package container
 
-import "testing"
+// Roster half of the family (C14): addNextEpochNodes / commitContainerListUpdate / nodes /
+// replicasNumbers / verifyPlacementSignatures / submitObjectPut with real secp256r1 keys and
+// signatures. Vocabulary = the ev record of spec/ContainerRoster.tla.
 
-func driveRoster(t *testing.T, out string) { t.Fatal("not yet") }
+import (
+	"bytes"
+	"crypto/elliptic"
+	"crypto/sha256"
+	"encoding/hex"
+	"encoding/json"
+	"fmt"
+	"math/big"
+	"math/rand"
+	"os"
+	"sort"
+	"strconv"
+	"sync"
+	"testing"
+
+	"github.com/nspcc-dev/neo-go/pkg/crypto/keys"
+	"github.com/nspcc-dev/neo-go/pkg/neotest"
+	"github.com/nspcc-dev/neo-go/pkg/vm/stackitem"
+	"github.com/stretchr/testify/require"
+
+	"verif/harness/chain"
+)
+
+// RSig is one signature of a matrix: key index in the pool, message, form ("ok" | "mal" | "junk").
+type RSig struct {
+	K int    `json:"k"`
+	M string `json:"m"`
+	F string `json:"f"`
+}
+
+// RStep is one invocation in model vocabulary.
+type RStep struct {
+	Act  string   `json:"act"`
+	S    []string `json:"S"`
+	C    string   `json:"c"`
+	V    int      `json:"v"`
+	From int      `json:"from"`
+	Len  int      `json:"len"`
+	Bk   bool     `json:"bk"`
+	Rs   []int    `json:"rs"`
+	M    string   `json:"m"`
+	Sigs [][]RSig `json:"sigs"`
+}
+
+// RScenario is a sequence of roster steps on a fresh chain.
+type RScenario struct {
+	N     int     `json:"n"`
+	Src   string  `json:"src"`
+	Steps []RStep `json:"steps"`
+}
+
+const (
+	poolK   = 300 // keys 1..poolK (K of the sim / monitor configurations)
+	rMaxVec = 3   // vectors 0..3 are observed
+)
+
+var (
+	poolOnce sync.Once
+	pool     []*keys.PrivateKey
+	poolIdx  map[string]int
+)
+
+func keyPool() {
+	poolOnce.Do(func() {
+		poolIdx = map[string]int{}
+		for i := 1; i <= poolK; i++ {
+			k := chain.DetKey(77, "node"+strconv.Itoa(i))
+			pool = append(pool, k)
+			poolIdx[hex.EncodeToString(k.PublicKey().Bytes())] = i
+		}
+	})
+}
+
+type rworld struct {
+	*world
+	rcid   map[string][]byte
+	rname  map[string]string
+	sigmem map[string][]byte
+}
+
+func newRWorld(t *testing.T, n int, seed int64) *rworld {
+	keyPool()
+	w := newWorld(t, n, 0, seed)
+	rw := &rworld{world: w, rcid: map[string][]byte{}, rname: map[string]string{}, sigmem: map[string][]byte{}}
+	// c1: container with the meta-on-chain flag, c2: container without it, c3: an id without container
+	v := w.vars["a"]
+	r := w.c.Run(w.cn, []neotest.Signer{w.c.Alpha}, "put", w.blob["c1"], v.sig, v.pub, v.token, true)
+	require.True(t, r.Halt, r.Fault)
+	r = w.c.Run(w.cn, []neotest.Signer{w.c.Alpha}, "put", w.blob["c2"], v.sig, v.pub, v.token)
+	require.True(t, r.Halt, r.Fault)
+	rw.rcid["c1"], rw.rcid["c2"] = w.cid["c1"], w.cid["c2"]
+	h := sha256.Sum256([]byte(fmt.Sprintf("no-container|%d", seed)))
+	rw.rcid["c3"] = h[:]
+	for k, id := range rw.rcid {
+		rw.rname[hex.EncodeToString(id)] = k
+	}
+	return rw
+}
+
+// message m for container c: a well-formed meta-information blob (so that it can be submitted)
+func (w *rworld) msg(c, m string) []byte {
+	oid := sha256.Sum256([]byte("oid|" + c + "|" + m))
+	mp := stackitem.NewMapWithValue([]stackitem.MapElement{
+		{Key: stackitem.Make("network"), Value: stackitem.Make(int64(w.c.E.Chain.GetConfig().Magic))},
+		{Key: stackitem.Make("cid"), Value: stackitem.Make(w.rcid[c])},
+		{Key: stackitem.Make("oid"), Value: stackitem.Make(oid[:])},
+		{Key: stackitem.Make("size"), Value: stackitem.Make(123)},
+		{Key: stackitem.Make("deleted"), Value: stackitem.Make([]any{})},
+		{Key: stackitem.Make("locked"), Value: stackitem.Make([]any{})},
+		{Key: stackitem.Make("validuntil"), Value: stackitem.Make(int64(1) << 40)},
+	})
+	b, err := stackitem.Serialize(mp)
+	require.NoError(w.t, err)
+	return b
+}
+
+func malleate(sig []byte) []byte {
+	n := elliptic.P256().Params().N
+	s := new(big.Int).SetBytes(sig[32:])
+	s.Sub(n, s)
+	out := make([]byte, 64)
+	copy(out, sig[:32])
+	s.FillBytes(out[32:])
+	return out
+}
+
+func (w *rworld) sigBytes(c string, s RSig) []byte {
+	key := c + "|" + s.M + "|" + strconv.Itoa(s.K)
+	sig, ok := w.sigmem[key]
+	if !ok {
+		require.True(w.t, s.K >= 1 && s.K <= poolK, "key index %d", s.K)
+		sig = pool[s.K-1].Sign(w.msg(c, s.M)) // ECDSA over sha256(message), as tests/container_test.go does
+		w.sigmem[key] = sig
+	}
+	switch s.F {
+	case "mal":
+		return malleate(sig)
+	case "junk":
+		return sig[:63]
+	}
+	return sig
+}
+
+func (w *rworld) matrix(c string, sigs [][]RSig) []any {
+	out := make([]any, len(sigs))
+	for i, vec := range sigs {
+		v := make([]any, len(vec))
+		for j, s := range vec {
+			v[j] = w.sigBytes(c, s)
+		}
+		out[i] = v
+	}
+	return out
+}
+
+func keysOf(from, ln int) []int {
+	out := make([]int, ln)
+	for i := 1; i <= ln; i++ {
+		out[i-1] = ((from+i-2)%poolK+poolK)%poolK + 1
+	}
+	return out
+}
+
+func (w *rworld) rexec(st RStep) chain.Rec {
+	sg, names := w.signers(st.S)
+	w.step++
+	id := w.rcid[st.C]
+	require.NotNil(w.t, id, "cid %q", st.C)
+	res, ret, fault := "HALT", "null", ""
+	ntf := []any{}
+	switch st.Act {
+	case "add":
+		ks := keysOf(st.From, st.Len)
+		pubs := make([]any, len(ks))
+		for i, k := range ks {
+			pubs[i] = pool[k-1].PublicKey().Bytes()
+		}
+		if st.Bk && len(pubs) > 0 {
+			pubs[len(pubs)/2] = pubs[len(pubs)/2].([]byte)[:32]
+		}
+		r := w.c.Run(w.cn, sg, "addNextEpochNodes", id, st.V, pubs)
+		res, fault = r.Res(), r.Fault
+	case "commit":
+		var rs any = []byte{}
+		if len(st.Rs) > 0 {
+			b := make([]byte, len(st.Rs))
+			for i, x := range st.Rs {
+				b[i] = byte(x)
+			}
+			rs = b
+		} else if w.step%2 == 0 {
+			rs = nil
+		}
+		r := w.c.Run(w.cn, sg, "commitContainerListUpdate", id, rs)
+		res, fault = r.Res(), r.Fault
+		if r.Halt {
+			for _, ev := range r.Events {
+				if ev.ScriptHash == w.cn {
+					ntf = append(ntf, ev.Name)
+				}
+			}
+		}
+	case "verify":
+		stk, err := w.c.Call(w.cn, "verifyPlacementSignatures", id, w.msg(st.C, st.M), w.matrix(st.C, st.Sigs))
+		if err != nil {
+			res, fault = "FAULT", err.Error()
+		} else {
+			b, e2 := stk[0].TryBool()
+			require.NoError(w.t, e2)
+			ret = strconv.FormatBool(b)
+		}
+	case "submit":
+		r := w.c.Run(w.cn, sg, "submitObjectPut", w.msg(st.C, st.M), w.matrix(st.C, st.Sigs))
+		res, fault = r.Res(), r.Fault
+		if r.Halt {
+			for _, ev := range r.Events {
+				if ev.ScriptHash == w.cn {
+					ntf = append(ntf, ev.Name)
+				}
+			}
+		}
+	default:
+		w.t.Fatalf("unknown act %q", st.Act)
+	}
+	rs := st.Rs
+	if rs == nil {
+		rs = []int{}
+	}
+	sigs := st.Sigs
+	if sigs == nil {
+		sigs = [][]RSig{}
+	}
+	for i := range sigs {
+		if sigs[i] == nil {
+			sigs[i] = []RSig{}
+		}
+	}
+	if st.S == nil {
+		names = []string{}
+	}
+	return chain.Rec{"act": st.Act, "S": names, "c": st.C, "v": st.V, "from": st.From, "len": st.Len, "bk": st.Bk, "rs": rs, "m": st.M,
+		"sigs": sigs, "res": res, "ret": ret, "ntf": ntf, "fault": fault}
+}
+
+func (w *rworld) keyIdx(b []byte) int {
+	if i, ok := poolIdx[hex.EncodeToString(b)]; ok {
+		return i
+	}
+	w.bad = append(w.bad, "unknown-key:"+hex.EncodeToString(b))
+	return 0
+}
+
+type rawKV struct {
+	k, v []byte
+}
+
+// robserve: raw 'u' / 'n' / 'r' / 'm' keys of the Container contract and the nodes / replicasNumbers API
+func (w *rworld) robserve() map[string]any {
+	cids := []string{"c1", "c2", "c3"}
+	raw := map[string]map[byte][rMaxVec + 1][]rawKV{}
+	rr := map[string][]rawKV{}
+	for _, c := range cids {
+		raw[c] = map[byte][rMaxVec + 1][]rawKV{}
+	}
+	meta := []string{}
+	stray := []string{}
+	st := w.c.Storage(w.cn)
+	hk := make([]string, 0, len(st))
+	for k := range st {
+		hk = append(hk, k)
+	}
+	sort.Strings(hk) // hex order = byte order = storage.Find order
+	for _, k := range hk {
+		kb, _ := hex.DecodeString(k)
+		v := st[k]
+		ok := false
+		switch {
+		case len(kb) == 36 && (kb[0] == 'u' || kb[0] == 'n'):
+			if c, in := w.rname[hex.EncodeToString(kb[1:33])]; in && int(kb[33]) <= rMaxVec {
+				m := raw[c][kb[0]]
+				m[kb[33]] = append(m[kb[33]], rawKV{kb[34:], v})
+				raw[c][kb[0]] = m
+				ok = true
+			}
+		case len(kb) == 34 && kb[0] == 'r':
+			if c, in := w.rname[hex.EncodeToString(kb[1:33])]; in {
+				rr[c] = append(rr[c], rawKV{kb[33:], v})
+				ok = true
+			}
+		case len(kb) == 33 && kb[0] == 'm':
+			if c, in := w.rname[hex.EncodeToString(kb[1:])]; in {
+				meta = append(meta, c)
+				ok = true
+			}
+		case len(kb) == 33 && kb[0] == 'x', len(kb) == 58 && kb[0] == 'o', len(kb) <= 18:
+			ok = true // the two containers of the set-up and the contract's own settings
+		}
+		if !ok {
+			stray = append(stray, k)
+		}
+	}
+	pend, comm, reps := map[string]any{}, map[string]any{}, map[string]any{}
+	nodes, areps := map[string]any{}, map[string]any{}
+	for _, c := range cids {
+		for _, pfx := range []byte{'u', 'n'} {
+			vecs := make([]any, rMaxVec+1)
+			for v := 0; v <= rMaxVec; v++ {
+				lst := []int{}
+				for i, kv := range raw[c][pfx][byte(v)] {
+					// the counter is stored big-endian in two bytes and starts at 1
+					if len(kv.k) != 2 || int(kv.k[0])<<8|int(kv.k[1]) != i+1 {
+						w.bad = append(w.bad, fmt.Sprintf("counter:%s/%c/%d/%x", c, pfx, v, kv.k))
+					}
+					lst = append(lst, w.keyIdx(kv.v))
+				}
+				vecs[v] = lst
+			}
+			if pfx == 'u' {
+				pend[c] = vecs
+			} else {
+				comm[c] = vecs
+			}
+		}
+		rl := []int64{}
+		for i, kv := range rr[c] {
+			if int(kv.k[0]) != i {
+				w.bad = append(w.bad, fmt.Sprintf("rep-index:%s/%x", c, kv.k))
+			}
+			rl = append(rl, bigFromVM(kv.v).Int64())
+		}
+		reps[c] = rl
+		// API
+		vecs := make([]any, rMaxVec+1)
+		for v := 0; v <= rMaxVec; v++ {
+			lst := []int{}
+			stk, err := w.c.Call(w.cn, "nodes", w.rcid[c], v)
+			if err != nil {
+				w.bad = append(w.bad, "nodes:"+err.Error())
+			} else {
+				for _, it := range structFields(stk[0]) {
+					lst = append(lst, w.keyIdx(chain.ItemBytes(it)))
+				}
+			}
+			vecs[v] = lst
+		}
+		nodes[c] = vecs
+		al := []int64{}
+		stk, err := w.c.Call(w.cn, "replicasNumbers", w.rcid[c])
+		if err != nil {
+			w.bad = append(w.bad, "replicasNumbers:"+err.Error())
+		} else {
+			for _, it := range structFields(stk[0]) {
+				al = append(al, chain.ItemBig(it).Int64())
+			}
+		}
+		areps[c] = al
+	}
+	sort.Strings(meta)
+	return map[string]any{"pend": pend, "comm": comm, "reps": reps, "meta": meta, "nodes": nodes, "areps": areps, "stray": stray}
+}
+
+func bigFromVM(v []byte) *big.Int {
+	b := make([]byte, len(v))
+	for i := range v {
+		b[len(v)-1-i] = v[i]
+	}
+	x := new(big.Int).SetBytes(b)
+	if len(v) > 0 && v[len(v)-1]&0x80 != 0 {
+		x.Sub(x, new(big.Int).Lsh(big.NewInt(1), uint(8*len(v))))
+	}
+	return x
+}
+
+func runRScenario(t *testing.T, rec *chain.Recorder, idx int, sc *RScenario, seed int64) {
+	w := newRWorld(t, sc.N, seed+int64(idx))
+	w.bad = nil
+	obs := w.robserve()
+	require.Empty(t, w.bad, "initial observation")
+	rec.Emit(chain.Rec{"t": idx, "act": "reset", "S": []string{}, "c": "nil", "v": 0, "from": 0, "len": 0, "bk": false, "rs": []int{}, "m": "nil",
+		"sigs": []any{}, "res": "HALT", "ret": "null", "ntf": []any{}, "obs": obs, "bad": []string{}, "n": sc.N, "src": sc.Src})
+	for _, st := range sc.Steps {
+		w.bad = nil
+		r := w.rexec(st)
+		r["obs"] = w.robserve()
+		if w.bad == nil {
+			w.bad = []string{}
+		}
+		r["bad"] = w.bad
+		r["t"] = idx
+		rec.Emit(r)
+	}
+}
+
+// ---- random scenarios ----
+
+type rmodel struct {
+	pend, comm map[string][][]int
+	reps       map[string][]int
+}
+
+func randRScenario(r *rand.Rand) *RScenario {
+	ns := []int{1, 4, 3, 7}
+	sc := &RScenario{N: ns[r.Intn(len(ns))], Src: "rand"}
+	cids := []string{"c1", "c1", "c1", "c2", "c3"}
+	m := rmodel{pend: map[string][][]int{}, comm: map[string][][]int{}, reps: map[string][]int{}}
+	for _, c := range []string{"c1", "c2", "c3"} {
+		m.pend[c] = make([][]int, rMaxVec+1)
+		m.comm[c] = make([][]int, rMaxVec+1)
+	}
+	big := r.Intn(3) == 0 // some scenarios cross the 127 / 255 / 256 boundaries of the counter
+	sizes := []int{1, 1, 2, 2, 3, 4, 5, 0}
+	if big {
+		sizes = []int{1, 2, 126, 127, 128, 129, 254, 255, 256, 257, 300, 3}
+	}
+	A := []string{"ALPHA"}
+	sig := func() []string {
+		switch k := r.Intn(10); {
+		case k < 8:
+			return A
+		case k == 8:
+			return []string{"CMT"}
+		default:
+			return []string{}
+		}
+	}
+	n := 8 + r.Intn(14)
+	for i := 0; i < n; i++ {
+		c := cids[r.Intn(len(cids))]
+		switch k := r.Intn(10); {
+		case k < 3:
+			v := r.Intn(rMaxVec + 1)
+			if r.Intn(4) > 0 { // mostly contiguous
+				v = 0
+				for v < rMaxVec && len(m.pend[c][v]) > 0 && r.Intn(2) == 0 {
+					v++
+				}
+			}
+			ln := sizes[r.Intn(len(sizes))]
+			from := 1 + r.Intn(poolK)
+			s := sig()
+			bk := r.Intn(12) == 0 && ln > 0
+			sc.Steps = append(sc.Steps, RStep{Act: "add", S: s, C: c, V: v, From: from, Len: ln, Bk: bk, M: "nil"})
+			if len(s) == 1 && s[0] == "ALPHA" && !bk && (v == 0 || len(m.pend[c][v-1]) > 0) {
+				m.pend[c][v] = append(m.pend[c][v], keysOf(from, ln)...)
+			}
+		case k < 5:
+			nv := 0
+			for nv <= rMaxVec && len(m.pend[c][nv]) > 0 {
+				nv++
+			}
+			if r.Intn(5) == 0 {
+				nv = r.Intn(rMaxVec + 2)
+			}
+			rs := make([]int, nv)
+			for j := range rs {
+				rs[j] = 1 + r.Intn(4)
+				if len(m.pend[c][j]) > 0 && rs[j] > len(m.pend[c][j]) && r.Intn(3) > 0 {
+					rs[j] = len(m.pend[c][j])
+				}
+			}
+			s := sig()
+			sc.Steps = append(sc.Steps, RStep{Act: "commit", S: s, C: c, Rs: rs, M: "nil"})
+			if len(s) == 1 && s[0] == "ALPHA" {
+				m.comm[c] = m.pend[c]
+				m.pend[c] = make([][]int, rMaxVec+1)
+				m.reps[c] = rs
+			}
+		default:
+			act := "verify"
+			var s []string
+			if r.Intn(3) == 0 {
+				act = "submit"
+				s = [][]string{{}, {"X"}, {"CMT"}}[r.Intn(3)]
+			}
+			sc.Steps = append(sc.Steps, RStep{Act: act, S: s, C: c, M: "m1", Sigs: randMatrix(r, m.comm[c], m.reps[c])})
+		}
+	}
+	return sc
+}
+
+// randMatrix builds a signature matrix from member / non-member / duplicate / wrong-message / malleated / junk
+// signatures around the REP numbers of the committed roster.
+func randMatrix(r *rand.Rand, comm [][]int, reps []int) [][]RSig {
+	nv := len(reps)
+	switch r.Intn(8) {
+	case 0:
+		if nv > 0 {
+			nv-- // missing vector
+		}
+	case 1:
+		nv++ // surplus vector
+	}
+	out := make([][]RSig, nv)
+	for i := range out {
+		var mem []int
+		if i <= rMaxVec {
+			mem = comm[i]
+		}
+		rep := 1
+		if i < len(reps) {
+			rep = reps[i]
+		}
+		member := func() int {
+			if len(mem) == 0 {
+				return 1 + r.Intn(poolK)
+			}
+			return mem[r.Intn(len(mem))]
+		}
+		var vec []RSig
+		switch r.Intn(9) {
+		case 0, 1: // honest: rep distinct members (as far as there are any)
+			p := r.Perm(len(mem))
+			for j := 0; j < rep && j < len(p); j++ {
+				vec = append(vec, RSig{mem[p[j]], "m1", "ok"})
+			}
+		case 2: // one member repeated rep times
+			k := member()
+			for j := 0; j < rep; j++ {
+				vec = append(vec, RSig{k, "m1", "ok"})
+			}
+		case 3: // a member and its malleated twin(s)
+			k := member()
+			for j := 0; j < rep; j++ {
+				vec = append(vec, RSig{k, "m1", []string{"ok", "mal"}[j%2]})
+			}
+		case 4: // one short
+			p := r.Perm(len(mem))
+			for j := 0; j < rep-1 && j < len(p); j++ {
+				vec = append(vec, RSig{mem[p[j]], "m1", "ok"})
+			}
+		case 5: // rep-1 members and a non-member / wrong message / junk filler
+			p := r.Perm(len(mem))
+			for j := 0; j < rep-1 && j < len(p); j++ {
+				vec = append(vec, RSig{mem[p[j]], "m1", "ok"})
+			}
+			switch r.Intn(3) {
+			case 0:
+				vec = append(vec, RSig{1 + r.Intn(poolK), "m1", "ok"})
+			case 1:
+				vec = append(vec, RSig{member(), "m2", "ok"})
+			default:
+				vec = append(vec, RSig{member(), "m1", "junk"})
+			}
+		default: // anything
+			ln := r.Intn(rep + 3)
+			for j := 0; j < ln; j++ {
+				k := member()
+				if r.Intn(4) == 0 {
+					k = 1 + r.Intn(poolK)
+				}
+				vec = append(vec, RSig{k, []string{"m1", "m1", "m1", "m2"}[r.Intn(4)], []string{"ok", "ok", "ok", "mal", "junk"}[r.Intn(5)]})
+			}
+		}
+		r.Shuffle(len(vec), func(a, b int) { vec[a], vec[b] = vec[b], vec[a] })
+		if vec == nil {
+			vec = []RSig{}
+		}
+		out[i] = vec
+	}
+	return out
+}
+
+// ---- traps ----
+
+func rs(act string, S []string, c string) RStep { return RStep{Act: act, S: S, C: c, M: "nil"} }
+
+func radd(c string, v, from, ln int) RStep {
+	return RStep{Act: "add", S: sA, C: c, V: v, From: from, Len: ln, M: "nil"}
+}
+func rcommit(c string, reps ...int) RStep { return RStep{Act: "commit", S: sA, C: c, Rs: reps, M: "nil"} }
+func rverify(c string, sigs ...[]RSig) RStep {
+	return RStep{Act: "verify", C: c, M: "m1", Sigs: sigs}
+}
+func rsubmit(c string, sigs ...[]RSig) RStep {
+	return RStep{Act: "submit", S: []string{}, C: c, M: "m1", Sigs: sigs}
+}
+func ok(k int) RSig  { return RSig{k, "m1", "ok"} }
+func mal(k int) RSig { return RSig{k, "m1", "mal"} }
+
+// witness of DESIGN 5.4 row 5: one member's signature repeated REP times (and its malleated twin)
+func trapDupSigner(n int) *RScenario {
+	return &RScenario{N: n, Src: "trap:dupsigner", Steps: []RStep{
+		radd("c1", 0, 1, 3), radd("c1", 1, 10, 4),
+		rcommit("c1", 2, 3),
+		rverify("c1", []RSig{ok(1), ok(2)}, []RSig{ok(10), ok(11), ok(12)}),          // honest
+		rverify("c1", []RSig{ok(2), ok(1)}, []RSig{ok(13), ok(99), ok(11), ok(12)}),  // honest with a stranger in between
+		rverify("c1", []RSig{ok(1)}, []RSig{ok(10), ok(11), ok(12)}),                 // one short
+		rverify("c1", []RSig{ok(1), ok(2)}),                                          // missing vector
+		rverify("c1", []RSig{ok(1), ok(10)}, []RSig{ok(10), ok(11), ok(12)}),         // member of the other vector
+		rverify("c1", []RSig{ok(1), {2, "m2", "ok"}}, []RSig{ok(10), ok(11), ok(12)}), // wrong message
+		rverify("c1", []RSig{ok(1), {2, "m1", "junk"}}, []RSig{ok(10), ok(11), ok(12)}),
+		rverify("c1", []RSig{ok(1), ok(1)}, []RSig{ok(10), ok(11), ok(12)}),  // duplicate of one member
+		rverify("c1", []RSig{ok(1), mal(1)}, []RSig{ok(10), ok(11), ok(12)}), // malleated twin of one member
+		rverify("c1", []RSig{ok(1), ok(2)}, []RSig{ok(10), mal(10), ok(10)}),
+		rsubmit("c1", []RSig{ok(1), ok(2)}, []RSig{ok(10), ok(11), ok(12)}),
+		rsubmit("c1", []RSig{ok(1), ok(1)}, []RSig{ok(10), ok(11), ok(12)}),
+		rsubmit("c1", []RSig{ok(1)}, []RSig{ok(10), ok(11), ok(12)}),
+		rsubmit("c2", []RSig{ok(1), ok(2)}, []RSig{ok(10), ok(11), ok(12)}), // no meta flag
+		rcommit("c1"), // empty commit clears the roster; everything verifies vacuously
+		rverify("c1"),
+		rsubmit("c1"),
+	}}
+}
+
+// the two-byte counter crosses 127 / 255 / 256 in several batches; re-commit; empty commit; several vectors
+func trapLongRoster(n int) *RScenario {
+	return &RScenario{N: n, Src: "trap:longroster", Steps: []RStep{
+		radd("c1", 1, 1, 2), // vector 0 is missing
+		radd("c1", 0, 1, 126), radd("c1", 0, 127, 1), radd("c1", 0, 128, 1), radd("c1", 0, 129, 2),
+		radd("c1", 1, 200, 100), radd("c1", 1, 1, 155), radd("c1", 1, 20, 1), radd("c1", 1, 21, 1), radd("c1", 1, 22, 43),
+		radd("c1", 2, 5, 300),
+		{Act: "add", S: sA, C: "c1", V: 2, From: 7, Len: 5, Bk: true, M: "nil"},
+		{Act: "add", S: []string{"CMT"}, C: "c1", V: 0, From: 7, Len: 5, M: "nil"},
+		rverify("c1", []RSig{ok(1)}),
+		rcommit("c1", 1, 2, 4),
+		rverify("c1", []RSig{ok(128)}, []RSig{ok(21), ok(299)}, []RSig{ok(4), ok(5), ok(299), ok(300), ok(1)}),
+		rverify("c1", []RSig{ok(131)}, []RSig{ok(21), ok(299)}, []RSig{ok(5), ok(6), ok(7), ok(8)}),
+		radd("c1", 0, 300, 3), // wraps around the pool: 300, 1, 2
+		{Act: "commit", S: []string{}, C: "c1", Rs: []int{1}, M: "nil"},
+		rcommit("c1", 3),
+		rverify("c1", []RSig{ok(300), ok(1), ok(2)}),
+		rcommit("c1"),
+		rcommit("c1"),
+		radd("c3", 0, 1, 257), rcommit("c3", 2), radd("c3", 0, 1, 1), radd("c3", 1, 2, 1), rcommit("c3", 1, 1),
+		rverify("c3", []RSig{ok(1)}, []RSig{ok(2)}),
+	}}
+}
+
+func driveRoster(t *testing.T, out string) {
+	seed, _ := strconv.ParseInt(os.Getenv("VERIF_SEED"), 10, 64)
+	nrand, _ := strconv.Atoi(os.Getenv("VERIF_NRAND"))
+	shard, _ := strconv.Atoi(os.Getenv("VERIF_SHARD"))
+	nshard, _ := strconv.Atoi(os.Getenv("VERIF_NSHARD"))
+	if nshard == 0 {
+		nshard = 1
+	}
+	var scs []*RScenario
+	if p := os.Getenv("VERIF_SCEN"); p != "" {
+		data, err := os.ReadFile(p)
+		require.NoError(t, err)
+		require.NoError(t, json.Unmarshal(data, &scs))
+	}
+	ns := []int{1, 4, 3, 7}
+	for i, sc := range scs {
+		if sc.N == 0 {
+			sc.N = ns[i%len(ns)]
+		}
+		if sc.Src == "" {
+			sc.Src = "tlc"
+		}
+	}
+	if os.Getenv("VERIF_NOTRAPS") == "" {
+		scs = append(scs, trapDupSigner(1), trapDupSigner(4), trapLongRoster(3), trapLongRoster(7))
+	}
+	r := rand.New(rand.NewSource(seed*104729 + 5))
+	for i := 0; i < nrand; i++ {
+		scs = append(scs, randRScenario(r))
+	}
+	rec := chain.NewRecorder(t, out)
+	for i, sc := range scs {
+		if i%nshard != shard {
+			continue
+		}
+		runRScenario(t, rec, i, sc, seed)
+	}
+	rec.Close()
+	stats, _ := json.Marshal(map[string]any{"lines": rec.N, "scenarios": len(scs), "acts": rec.Acts})
+	fmt.Println("DRIVER-STATS " + string(stats))
+}
+
+var _ = bytes.Equal
